@@ -42,6 +42,7 @@ class _Future(Future):
         super(_Future, self).__init__()
         self._me_done_callbacks = []
         self._me_lock = RLock()
+        self._me_cancelling = False
 
     def _me_invoke_callbacks(self):
         for callback in self._me_done_callbacks:
@@ -70,14 +71,35 @@ class _Future(Future):
                 return True
             if self.done():
                 return False
-            if not self._me_cancel():
-                return False
+            # Cancelling the underlying work may synchronously invoke callbacks
+            # which report "delegate cancelled" back to us; the flag tells
+            # _me_delegate_cancelled that this cancel() will finish the job.
+            self._me_cancelling = True
+            try:
+                if not self._me_cancel():
+                    return False
+            finally:
+                self._me_cancelling = False
             out = super(_Future, self).cancel()
             if out:
                 self.set_running_or_notify_cancel()
         if out:
             self._me_invoke_callbacks()
         return out
+
+    def _me_delegate_cancelled(self):
+        # To be called when the future we depend on turned out to be cancelled
+        # by someone other than our own cancel(): there is nothing left which
+        # could resolve us, so we end up cancelled too (subclass overrides of
+        # cancel(), e.g. a veto, apply to requests from the user only).
+        with self._me_lock:
+            if self._me_cancelling or self.done():
+                return
+            out = super(_Future, self).cancel()
+            if out:
+                self.set_running_or_notify_cancel()
+        if out:
+            self._me_invoke_callbacks()
 
     def _me_cancel(self):
         raise NotImplementedError(
